@@ -378,8 +378,23 @@ def drive(func: Callable, kwargs: Dict[str, Any], script: Optional[Callable[[Dic
     if okind == "returned":
         obs["value"] = oval
     else:
+        _strip_tracebacks(oval)
         obs["exc"] = oval
     return obs
+
+
+def _strip_tracebacks(e: Optional[BaseException], depth: int = 0) -> None:
+    """The exception is kept only for its class, attributes and text.  Its traceback
+    references the finished coroutine frames (which reference the exception again):
+    such cycles are reclaimed only by a full collection, and until then every task of
+    every past execution stays registered with asyncio - the cost per call grows."""
+    if e is None or depth > 8:
+        return
+    e.__traceback__ = None
+    _strip_tracebacks(e.__context__, depth + 1)
+    _strip_tracebacks(e.__cause__, depth + 1)
+    for sub in getattr(e, "exceptions", ()) or ():
+        _strip_tracebacks(sub, depth + 1)
 
 
 def exc_info(e: BaseException) -> Dict[str, Any]:
